@@ -74,7 +74,8 @@ def check_restart(case, workdir):
         return r.fail("uninterrupted run failed: rc=%s timeout=%s: %s" % (
             ra["rc"], ra["timeout"], ra["out"][-400:].replace("\n", " | ")))
     sa = steps_of(a)
-    if ("Prematurely stopping simulation" in ra["out"] and sa
+    # (the warning is printed in a box that breaks lines anywhere)
+    if ("Prematurely stopping simulation" in " ".join(ra["out"].split()) and sa
             and sorted(sa) == list(range(1, len(sa) + 1)) and len(sa) < N):
         # documented behaviour: a requested time step below the configured
         # minimum ends the run (the generated flow blew up).  The comparison is
